@@ -177,6 +177,13 @@ func (n *Net) WaitSent(from string, k int) <-chan struct{} {
 	return ch
 }
 
+// DropTap forgets the recorded emissions (memory measurements).
+func (n *Net) DropTap() {
+	n.mu.Lock()
+	n.Tap = nil
+	n.mu.Unlock()
+}
+
 // Events returns a copy of the tap.
 func (n *Net) Events() []Event {
 	n.mu.Lock()
